@@ -2,9 +2,20 @@
 open Conv
 open QueueWrite
 
-let kind_of = function
-  | "rtmp" -> KRtmp | "rtmpv" -> KRtmpV | "flv" -> KFlv | "wsflv" -> KWsFlv
-  | "ts" -> KTs | "wsts" -> KWsTs | "rtp" -> KRtp | "wsrtp" -> KWsRtp
+(* rtsp set-up state: "rtp" = both tracks interleaved; "rtp.<v><a>" with one
+   letter per track: n = not set up, u = UDP sockets, t = interleaved channel,
+   b = both transports *)
+let setup_of (s : string) : setup =
+  if String.length s <> 2 then failwith "bad setup" else
+  let udp c = (c = 'u' || c = 'b') and tcp c = (c = 't' || c = 'b') in
+  String.iter (fun c -> if not (String.contains "nutb" c) then failwith "bad setup") s;
+  { su_vudp = udp s.[0]; su_vtcp = tcp s.[0]; su_audp = udp s.[1]; su_atcp = tcp s.[1] }
+
+let kind_of (k : string) = match String.split_on_char '.' k with
+  | ["rtmp"] -> KRtmp | ["rtmpv"] -> KRtmpV | ["flv"] -> KFlv | ["wsflv"] -> KWsFlv
+  | ["ts"] -> KTs | ["wsts"] -> KWsTs
+  | ["rtp"] -> KRtp (setup_of "tt") | ["wsrtp"] -> KWsRtp (setup_of "tt")
+  | ["rtp"; su] -> KRtp (setup_of su) | ["wsrtp"; su] -> KWsRtp (setup_of su)
   | _ -> failwith "bad kind"
 
 let parse_bufs (s : string) = Stdlib.List.map bytes_of_token (String.split_on_char '|' s)
@@ -13,24 +24,36 @@ let split2 c s = match String.split_on_char c s with [a; b] -> (a, b) | _ -> fai
 
 let rest s = String.sub s 1 (String.length s - 1)
 
-(* per consumer: codes;pre;q;h;state;wire *)
+let dgrams (t : track) (s : sess) : string =
+  match Stdlib.List.filter_map (fun (t', b) -> if t' = t then Some (token_of_bytes b) else None) s.s_udp with
+  | [] -> "-"
+  | l -> String.concat "," l
+
+(* 7th field: connection write calls; rtsp kinds also the session's byte
+   counter and the datagrams each UDP socket was given *)
+let extra (s : sess) : string =
+  match s.s_kind with
+  | KRtp _ | KWsRtp _ ->
+    Printf.sprintf "%s/%s/%s/%s" (token_of_n s.s_att) (token_of_n s.s_acc) (dgrams TVideo s) (dgrams TAudio s)
+  | _ -> token_of_n s.s_att
+
+(* per consumer: codes;pre;q;h;state;wire;extra *)
 let report (codes : string list) (st : sess list) : string =
   String.concat " "
     (Stdlib.List.map2 (fun cd s ->
          let c = s.s_conn in
          let d = (drain s).s_conn in
-         Printf.sprintf "%s;%s;%s;%d;%s;%s"
+         Printf.sprintf "%s;%s;%s;%d;%s;%s;%s"
            (if cd = "" then "-" else cd)
            (token_of_int (Stdlib.List.length c.c_wire))
            (token_of_int (Stdlib.List.length c.c_chan))
            (match c.c_hand with Some _ -> 1 | None -> 0)
            (if d.c_closed then "c" else "o")
-           (token_of_bytes d.c_wire)) codes st)
+           (token_of_bytes d.c_wire) (extra s)) codes st)
 
 let ops_of (s : string) = if s = "-" then [] else String.split_on_char ',' s
 
-let register () =
-  Registry.register "c15.run" (function
+let run_op = (function
       | cons :: sched :: _ ->
         let specs = Stdlib.List.map (fun kc -> let (k, c) = split2 ':' kc in (kind_of k, int_of_string c))
             (String.split_on_char ',' cons) in
@@ -56,6 +79,14 @@ let register () =
             | EvPub _ -> Stdlib.List.iteri (fun i r -> codes.(i) <- codes.(i) ^ string_of_int (int_of_n r)) row
             | _ -> ()) evs obs;
         report (Array.to_list codes) st
+      | _ -> "bad-args")
+
+let register () =
+  Registry.register "c15.run" run_op;
+  (* rtsp subscribers of a real Group: same machine, every consumer has the capacity of the first argument *)
+  Registry.register "c15.rgroup" (function
+      | cap :: kinds :: sched :: _ ->
+        run_op [String.concat "," (Stdlib.List.map (fun k -> k ^ ":" ^ cap) (String.split_on_char ',' kinds)); sched]
       | _ -> "bad-args");
   Registry.register "c15.group" (function
       | cap :: subs :: sched :: _ ->
